@@ -220,6 +220,7 @@ package util
 //@   ensures s == MH(h1, h2) && len(s) == 64
 
 //@ func (*MerkleTree).computeSize(mt, leaves) returns (tsize, levels)
+//@   locals (tsize, levels, ll)
 //@   props C19
 //@   opt nilrecv ok
 //@   requires leaves >= 1 && leaves <= 1099511627776
@@ -230,6 +231,7 @@ package util
 //@   loop 1 invariant levels + ll <= leaves && tsize + 2*ll <= 2*leaves + levels                                                #bounded
 
 //@ func VerifyMerklePath(hash, path, root) returns (ok)
+//@   locals (mthash, pathNodes, pl, idx, i)
 //@   props C19
 //@   requires path != nil
 //@   assigns nothing
@@ -239,6 +241,7 @@ package util
 // The path for leaf idx: one sibling per level below the root, and folding the leaf hash along it
 // reaches the root (this is "the path produced for any leaf position verifies").
 //@ func (*MerkleTree).GetPathByIndex(mt, idx) returns (p)
+//@   locals (path, mpath, pl0, plsize, pi, l0)
 //@   props C19
 //@   requires TreeWF(mt) && 0 <= idx && idx < mt.leavesCount
 //@   assigns nothing
@@ -254,6 +257,7 @@ package util
 
 // Construction: the tree is built as specified.
 //@ func (*MerkleTree).ComputeTree(mt, hashes)
+//@   locals (tsize, idx, hashable, pl0, plsize, l0, i, j)
 //@   props C19
 //@   requires len(hashes) >= 1 && len(hashes) <= 1099511627776 && (forall i :: 0 <= i && i < len(hashes) ==> hashes[i] != nil)
 //@   assigns mt.levels, mt.leavesCount, mt.tree
@@ -280,6 +284,7 @@ package util
 //@   assigns nothing
 //@   ensures t == mt.tree
 //@ func (*MerkleTree).GetLeafIndex(mt, hash) returns (i)
+//@   locals (hs, i)
 //@   props C19
 //@   requires mt.leavesCount >= 0 && mt.leavesCount <= len(mt.tree) && hash != nil
 //@   assigns nothing
@@ -360,6 +365,7 @@ package util
 //@ pred PathsWF(n Node) = (n is *ExtensionNode ==> HexPath(n.(*ExtensionNode).Path)) && (n is *LeafNode ==> HexPath(n.(*LeafNode).Path))
 
 //@ func (*MerklePatriciaTrie).matchingPrefix(mpt, p1, p2) returns (r)
+//@   locals (idx)
 //@   props C01
 //@   opt nilrecv ok
 //@   assigns nothing
@@ -379,6 +385,7 @@ package util
 
 // ---- node accessors ----
 //@ func (*FullNode).GetNumChildren(fn) returns (count)
+//@   locals (count, child)
 //@   props C01 C02
 //@   mode wrap
 //@   assigns nothing
@@ -832,6 +839,7 @@ package util
 // UpdateChanges hands the store one batch: a copy of every collected node under that copy's own hash;
 // it sends delete requests only when asked to (the save mode that pairs with dead-node pruning never deletes).
 //@ func (*ChangeCollector).UpdateChanges(cc, ndb, origin, includeDeletes) returns (err)
+//@   locals (keys, keysStr, nodes, idx, c, err, d, err)
 //@   props C04 C05 C14
 //@   mode wrap
 //@   requires ndb != nil && cc.Changes != nil && cc.Deletes != nil && ChangesWF(cc) && (forall k string :: k in cc.Deletes ==> cc.Deletes[k] != nil)
@@ -873,6 +881,7 @@ package util
 //@   assigns mapof(mndb.Nodes)
 //@   ensures err == nil && StoreKeyed(mndb) && str(key) in mndb.Nodes                                          #store-stays-keyed-by-hash
 //@ func (*MemoryNodeDB).MultiPutNode(mndb, keys, nodes) returns (err)
+//@   locals (idx, key, err)
 //@   props C14
 //@   mode wrap
 //@   requires mndb.mutex != nil && StoreKeyed(mndb) && KeyedByHash(keys, nodes)                                 #batch-keyed-by-hash
@@ -894,6 +903,7 @@ package util
 //@   assigns ghost(DBPut)
 //@   ensures forall d Ref :: d != ref(lndb.current) ==> DBPut[d] == old(DBPut[d])                               #only-the-own-level-is-written
 //@ func (*LevelNodeDB).MultiPutNode(lndb, keys, nodes) returns (err)
+//@   locals (idx, key, err)
 //@   props C14 C03
 //@   mode wrap
 //@   requires lndb.mutex != nil && lndb.current != nil && KeyedByHash(keys, nodes)                              #batch-keyed-by-hash
@@ -913,6 +923,7 @@ package util
 //@   assigns ghost(DBDel), mapof(lndb.DeletedNodes)
 //@   ensures !lndb.PropagateDeletes ==> (forall d Ref :: d != ref(lndb.current) ==> DBDel[d] == old(DBDel[d]))      #deletes-stay-in-the-own-level
 //@ func (*LevelNodeDB).MultiDeleteNode(lndb, keys) returns (err)
+//@   locals (key, err)
 //@   props C03
 //@   mode wrap
 //@   requires lndb.mutex != nil && lndb.current != nil && lndb.prev != nil && lndb.DeletedNodes != nil
